@@ -324,6 +324,7 @@ void run(size_t idx) {
 		if (mode == 0) cloneCheck(s2, sh, s2, true, what, reps);
 		else if (mode == 1) {
 			NifFile dst;
+			if (idx % 2) { what += " {destination object " + useObject(dst, rng) + "}"; R_caseDesc(what); }
 			dst.Create(s2.GetHeader().GetVersion());
 			cloneCheck(s2, sh, dst, false, what, reps);
 		}
